@@ -171,6 +171,41 @@ def r1_hash_agreement_in_equality_family(ctx):
                witness="(get {[1 2] :a} '(1 2)) => nil although (= [1 2] '(1 2))")
 
 
+KWF = "src/basilisp/lang/keyword.py"
+
+
+@rule("C05.R5", floor=3)
+def r5_set_hash_and_keyword_identity(ctx):
+    """A PersistentSet is = to every Set with the same members (frozenset included), so it hashes
+    with the Set-protocol hash (self._hash(), frozenset-compatible). A PersistentMap is = only to
+    other Mappings; hashable ones are PersistentMaps, which all hash their delegate. Keyword
+    equality may rely on identity only if interning is atomic: either __eq__ also compares (name,
+    ns) or every intern-table lookup and insertion of keyword_from_hash is inside one `with _LOCK`."""
+    scls = P.find_def(ctx.py(SET), "PersistentSet")
+    h = P.methods(scls).get("__hash__")
+    rets = [P.un(r.value) for r in ast.walk(h) if isinstance(r, ast.Return)] if h else []
+    ok = rets == ["self._hash()"]
+    ctx.ob("C05.R5", f"{SET}::PersistentSet.__hash__::{' | '.join(rets)}", SET, getattr(h, "lineno", 0), ok,
+           "" if ok else "the set no longer hashes with the Set-protocol hash: it stays = to a frozenset with the same members but cannot be found by it as a map key / set member",
+           witness="(= #{1 2} (python/frozenset [1 2])) is true while their hashes differ")
+    kt = ctx.py(KWF)
+    kcls = P.find_def(kt, "Keyword")
+    eq = P.methods(kcls).get("__eq__")
+    structural = eq is not None and "_name" in P.un(eq) and "_ns" in P.un(eq)
+    kfh = P.find_def(kt, "keyword_from_hash")
+    if kfh is None:
+        raise AnalysisError("anchor vanished: keyword_from_hash")
+    ops = [n for n in ast.walk(kfh) if isinstance(n, ast.Call) and P.un(n.func) in ("_INTERN.val_at", "_INTERN.assoc")]
+    withs = {id(w) for n in ops for w, it in P.with_items_enclosing(n, kfh) if P.un(it.context_expr) == "_LOCK"}
+    atomic = bool(ops) and all(any(P.un(it.context_expr) == "_LOCK" for _w, it in P.with_items_enclosing(n, kfh)) for n in ops) and len(withs) == 1
+    ok = structural or atomic
+    ctx.ob("C05.R5", f"{KWF}::Keyword.__eq__ structural={structural} / interning atomic={atomic}", KWF, getattr(eq, "lineno", 0), ok,
+           "" if ok else "keywords compare by identity only while the intern table is read outside the lock that guards insertion: two threads creating the same keyword get two unequal objects that print and hash alike")
+    hh = P.methods(kcls).get("__hash__")
+    ok = hh is not None and [P.un(r.value) for r in ast.walk(hh) if isinstance(r, ast.Return)] == ["self._hash"] and "self._hash = hash_kw(name, ns)" in P.un(P.methods(kcls)["__init__"])
+    ctx.ob("C05.R5", f"{KWF}::Keyword.__hash__ is hash_kw(name, ns)", KWF, getattr(hh, "lineno", 0), ok, "" if ok else "a keyword's hash is not a function of (name, ns): equal keywords could hash differently")
+
+
 @rule("C05.R2", floor=3)
 def r2_elements_compared_boolean_aware(ctx):
     """Collection equality must not compare elements (or whole delegates) with raw == / != or hand
